@@ -127,6 +127,7 @@ Proof.
   - exfalso. pose proof (HH _ _ _ Heql) as Hh. simpl in Hh. destruct Hh as [Xt _]. congruence.
   - exfalso. pose proof (HH _ _ _ Heql) as Hh. simpl in Hh. destruct Hh as [Xt _]. congruence.
   - destruct (dcb s d); simpl in E; inversion E; subst. destruct Hi as [X|X]; discriminate X.
+  - destruct (dcb s d); simpl in E; inversion E; subst. destruct Hi as [X|X]; discriminate X.
 Qed.
 
 Lemma HI_tick s ts : HI s -> HI (s <| clock := ts |>).
